@@ -4,6 +4,7 @@ CONSTANTS
   Paths <- PathsQ
   Keys <- KeysQ
   MaxOps = 4
+  TemplateDims = {1, 2}
   OverwriteRule = "inverted"
 SPECIFICATION Spec
 INVARIANT C16_StatsAreBagSum
